@@ -45,14 +45,16 @@ def make_case(seed, mode):
     elif mode == "racing_try":
         # the user (or show-status) runs try-submit-jobs while rounds and nodes are active
         plan["actions"] = [{"at": rng.randint(3, 150), "do": "try"} for _ in range(rng.choice([1, 2, 3]))]
-        plan["strategy"] = rng.choice(sysrun.STRATEGIES + ["gap_hunter"])
+        plan["strategy"] = rng.choice(sysrun.STRATEGIES + ["gap_hunter", "collect_gap", "collect_gap"])
     elif mode == "appendtimeout":
         # the lock of a node result file times out while a node records a job's result
         plan["actions"] = [{"when": {"k": "site", "field": "site", "startswith": "append:results_batch", "n": rng.randint(1, 3)},
                             "do": "locktimeout", "who": "event_actor"}]
     elif mode == "suspend":
         # the scheduler reports a batch in a state other than pending/running (SUSPENDED) for a while
-        plan["actions"] = [{"at": at, "do": "suspend"}, {"at": at + rng.randint(10, 80), "do": "resume"}]
+        d2 = rng.randint(20, 90)
+        plan["actions"] = [{"at": at, "do": "suspend"}, {"at": at + rng.randint(1, d2 - 5), "do": "try"}, {"at": at + d2, "do": "resume"}]
+        sc["max_nodes"] = rng.choice([1, 1, 2])
     elif mode == "local":
         for g in sc["groups"]:
             g["local"] = True
@@ -65,6 +67,20 @@ def make_case(seed, mode):
 
 
 DIRECTED = {
+    # C03/C05: the user runs try-submit-jobs while the last node finishes between the round's two
+    # observations (result collection / scheduler status); the run must still end with every result
+    "try_races_with_last_node": (
+        {"jobs": [{"name": "a", "deps": [], "group": "g", "est": 1, "rc": 0}, {"name": "b", "deps": ["a"], "group": "g", "est": 1, "rc": 3}],
+         "groups": [{"name": "g", "size": 2, "time": False, "try": True, "nproc": 1}], "max_nodes": 1, "hooks": {}, "node_cpus": 2},
+        {"strategy": "submitter_first",
+         "actions": [{"when": {"k": "launch", "field": "job", "startswith": "b"}, "do": "try", "then_strategy": "submitter_first"},
+                     {"when": {"k": "collect", "node": False}, "do": "strategy", "value": "collect_gap"}]}),
+    # C11/C01: a write fails between the first and the second sbatch of one round (quota exceeded while
+    # writing config_batch_2.json); later rounds must not hand batch 1's jobs out again
+    "write_fails_after_first_sbatch": (
+        {"jobs": [{"name": n, "deps": [], "group": "g", "est": 1, "rc": 0} for n in ("a", "b", "c", "d")],
+         "groups": [{"name": "g", "size": 1, "time": False, "try": True, "nproc": 1}], "max_nodes": 3, "hooks": {}, "node_cpus": 2},
+        {"strategy": "submitter_first", "break_stale": True, "write_error": ["write:batch_config", 2]}),
     # C12 known finding: a node dies inside the locked append of a result row; markers never broken
     "node_dies_holding_result_lock": (
         {"jobs": [{"name": "a", "deps": [], "group": "g", "est": 1, "rc": 0}, {"name": "b", "deps": [], "group": "g", "est": 1, "rc": 0}],
@@ -105,7 +121,7 @@ def run_cases(cases, procs=None):
 # final-state oracles on impl (Python)
 # ---------------------------------------------------------------------------------------------
 def fault_free(plan, r):
-    acts = [a for a in plan.get("actions", []) if a["do"] not in ("try", "suspend", "resume")]
+    acts = [a for a in plan.get("actions", []) if a["do"] not in ("try", "suspend", "resume", "strategy")]
     return not acts and not plan.get("sbatch_fail") and not plan.get("write_error") and not r["fired"]
 
 
